@@ -490,9 +490,20 @@ func (elementParser) Parse(pi *parse.Input) (n Node, ok bool, err error) {
 }
 
 func addTrailingSpaceAndValidate(start parse.Position, e Element, pi *parse.Input) (n Node, ok bool, err error) {
-	// Elide any void close tags.
-	if _, _, err = voidElementCloser.Parse(pi); err != nil {
+	// Elide any void close tags. Whitespace between a void element's tags, as in <br> </br>, is
+	// inside the element, it is not the space that trails it.
+	beforeCloser := pi.Index()
+	if e.IsVoidElement() {
+		if _, _, err = parse.OptionalWhitespace.Parse(pi); err != nil {
+			return e, false, err
+		}
+	}
+	var elided bool
+	if _, elided, err = voidElementCloser.Parse(pi); err != nil {
 		return e, false, err
+	}
+	if !elided {
+		pi.Seek(beforeCloser)
 	}
 	// Add trailing space.
 	ws, _, err := parse.Whitespace.Parse(pi)
